@@ -32,6 +32,10 @@ class BoundMethod:
     def __init__(self, self_obj, func):
         self.self_obj = self_obj
         self.func = func
+        self.__self__ = self_obj
+        self.__func__ = func
+        self.__name__ = getattr(func, "__name__", "method")
+        self.__qualname__ = getattr(func, "__qualname__", self.__name__)
 
     def __repr__(self):
         return f"<bound {self.func} of {self.self_obj}>"
